@@ -1,16 +1,27 @@
+pub mod builder;
 pub mod c18;
-pub mod cases;
 pub mod driver;
-pub mod exhaust;
-pub mod explore;
-pub mod fuzzing;
+pub mod findings;
 pub mod gen;
 pub mod model;
-pub mod oracle;
-pub mod single;
-pub mod tape;
-pub mod threads;
-pub mod builder;
-pub mod findings;
-pub mod multi;
 pub mod seq;
+pub mod tape;
+pub mod violation;
+
+// everything below drives fn_graph's streaming API (feature `async`, on by default)
+#[cfg(feature = "async_apis")]
+pub mod cases;
+#[cfg(feature = "async_apis")]
+pub mod exhaust;
+#[cfg(feature = "async_apis")]
+pub mod explore;
+#[cfg(feature = "async_apis")]
+pub mod fuzzing;
+#[cfg(feature = "async_apis")]
+pub mod multi;
+#[cfg(feature = "async_apis")]
+pub mod oracle;
+#[cfg(feature = "async_apis")]
+pub mod single;
+#[cfg(feature = "async_apis")]
+pub mod threads;
